@@ -19,8 +19,12 @@ SLACK_MS = 2000      # "completes within its response timeout" = timeout + this
 ALL_BEHS = ["ok", "err", "sendfail", "silent", "dup", "late", "foreign", "wrongsender", "crossid", "failreply", "fastreply"]
 # "late" is, in the base model, the same as "ok" (any reply may be processed at any later time)
 MODEL_BEHS = [b for b in ALL_BEHS if b != "late"]
+# "slow": SendFunc takes time to return, so the response windows of the targets of one command are staggered
+SLOW = "slow"
+STAG_BEHS = [SLOW, "silent", "ok", "dup", "sendfail"]
+TICK_MS = TO_MS // 2   # one logical tick of the generator (TO = 2 ticks) in driver time
 CROSS_BEHS = ["ok", "silent", "dup", "crossid", "sendfail"]
-INVS = "TypeOK AtMostOnce Completion OwnAnswer NoCrossTalk PendingAwaits Bounded TimeoutNotEarly"
+INVS = "TypeOK AtMostOnce Completion OwnAnswer NoCrossTalk PendingAwaits AwaitingPending Bounded TimeoutNotEarly"
 
 
 def tla_set(xs):
@@ -58,8 +62,9 @@ def cfg_model(cmds, targets, queues, behs, mutant="none", live=False):
         "INVARIANTS %s\nPROPERTY UnknownDropped\n%sCHECK_DEADLOCK FALSE\n" % (INVS, "PROPERTY ExactlyOnceLive\n" if live else "")
 
 
-def cfg_gen(cmds, targets, queues, behs):
-    return "SPECIFICATION GenSpec\n" + cfg_common(cmds, targets, queues, behs, 2) + "CHECK_DEADLOCK FALSE\n"
+def cfg_gen(cmds, targets, queues, behs, stagger="off"):
+    return "SPECIFICATION GenSpec\n" + cfg_common(cmds, targets, queues, behs, 2) + \
+        "  Stagger = \"%s\"\nCHECK_DEADLOCK FALSE\n" % stagger
 
 
 def cfg_trace():
@@ -79,7 +84,7 @@ CONSTANTS
   Slack = %d
 INVARIANT PrintEnd
 CHECK_DEADLOCK FALSE
-""" % (tla_set(ALL_BEHS), TO_MS, SLACK_MS)
+""" % (tla_set(ALL_BEHS + [SLOW]), TO_MS, SLACK_MS)
 
 
 def model(ctx, label, cmds, targets, queues, behs, shapes, qmaps, enq, mutant="none", live=False, workers=None):
@@ -103,7 +108,7 @@ def msg_key(m):
     return ".".join(str(x) for x in m["tok"])
 
 
-def beh_to_scenario(sid, beh):
+def beh_to_scenario(sid, beh, stagger=False):
     st0 = beh[0][2]
     tg = {c: sorted(set_of(v)) for c, v in st0["tg"].items()}
     qof = dict(st0["qof"])
@@ -122,7 +127,7 @@ def beh_to_scenario(sid, beh):
             c, t, b = a
             behv[c + "/" + t] = b
             msgs[c + "/" + t] = [net[k] for k in sorted(net) if k not in prev_net]
-            if b in ("fastreply", "failreply"):
+            if b in ("fastreply", "failreply", SLOW):
                 gated.append(c + "/" + t)
             steps.append({"a": "SendBegin", "c": c, "t": t})
         elif name == "SendEnd":
@@ -130,6 +135,8 @@ def beh_to_scenario(sid, beh):
             h = st["held"][pk(a[0], a[1])]
             if isinstance(h, dict) and h.get("tok") and st["pc"][pk(a[0], a[1])] == "waiting":
                 step["tok"] = h["tok"]   # this reply is handed over now: its ProcessResponse returns
+            if stagger and behv.get(a[0] + "/" + a[1]) == SLOW and st["clock"] > 0:
+                step["at_ms"] = st["clock"] * TICK_MS     # the slow SendFunc returns at this logical instant
             steps.append(step)
         elif name == "PRecv":
             tok = [a[0], a[1], int(a[2])]
@@ -137,7 +144,15 @@ def beh_to_scenario(sid, beh):
             for o, h in st["held"].items():
                 if isinstance(h, dict) and h.get("tok") == tok:
                     ret = st["pc"][o] == "waiting"
-            steps.append({"a": "PRecv", "tok": tok, "ret": ret})
+            step = {"a": "PRecv", "tok": tok, "ret": ret}
+            if stagger:
+                for o, h in st["held"].items():
+                    if isinstance(h, dict) and h.get("tok") == tok and st["pc"][o] == "waiting" \
+                            and st["deadline"][o] != st["clock"] + 2:
+                        # placed by the clock: half a tick after this logical instant (its own timer has
+                        # at least a full tick left, the timers of this instant have fired)
+                        step["at_ms"] = st["clock"] * TICK_MS + TICK_MS // 2
+            steps.append(step)
         elif name == "Deliver":
             steps.append({"a": "Deliver", "c": a[0]})
         prev_net = net
@@ -158,7 +173,7 @@ MC_EnqOrders == {}
 ASSUME PrintT(<<"TAB", [x \\in Cmds \\X Targets \\X Behs |-> Emits(x[1], x[2], x[3])]>>)
 ====
 """ % name
-    cfg = "SPECIFICATION Spec\n" + cfg_common(["c1", "c2"], ["t1", "t2", "t3"], ["q1", "q2"], ALL_BEHS, 2)
+    cfg = "SPECIFICATION Spec\n" + cfg_common(["c1", "c2"], ["t1", "t2", "t3"], ["q1", "q2"], ALL_BEHS + [SLOW], 2)
     r = ctx.tlc(name, None, workers=1, cfg_text=cfg, files={name + ".tla": mod}, timeout=120)
     recs = r.records("TAB")
     if not recs:
@@ -182,17 +197,23 @@ def free_scenario(sid, rng, tab):
     if ncmd == 1:
         tg["c2"] = []      # the other command of the shape exists but is never enqueued
         qof["c2"] = "q1"
-    behv, msgs, delay = {}, {}, {}
+    behv, msgs, delay, hold = {}, {}, {}, {}
     for c in cmds:
         for t in tg[c]:
-            b = rng.choice(ALL_BEHS)
+            b = rng.choice(ALL_BEHS + [SLOW, SLOW])
             behv[c + "/" + t] = b
+            if b == SLOW:
+                hold[c + "/" + t] = rng.randint(20, TO_MS) * 1000
             ms = tab[(c, t, b)]
             msgs[c + "/" + t] = ms
             for m in ms:
                 kind = rng.random()
                 if b == "late":
                     d = rng.randint(TO_MS + 30, TO_MS + 120) * 1000
+                elif b == SLOW and kind < 0.7:
+                    # inside its own response window, which starts when its SendFunc returns: possibly after
+                    # the deadline of a sibling whose SendFunc returned at once
+                    d = hold[c + "/" + t] + rng.randint(5, TO_MS - 30) * 1000
                 elif kind < 0.6:
                     d = rng.choice([0, 0, 50, 300, 2000, 15000])
                 elif kind < 0.85:
@@ -203,7 +224,8 @@ def free_scenario(sid, rng, tab):
     order = list(cmds)
     rng.shuffle(order)
     return {"id": sid, "mode": "free", "to_ms": TO_MS, "tg": tg, "qof": qof, "beh": behv, "msgs": msgs, "gated": [],
-            "steps": [], "order": order, "enq_us": {c: rng.choice([0, 0, 200, 5000]) for c in order}, "delay_us": delay}
+            "steps": [], "order": order, "enq_us": {c: rng.choice([0, 0, 200, 5000]) for c in order}, "delay_us": delay,
+            "hold_us": hold}
 
 
 def vector_of(s):
@@ -223,6 +245,9 @@ def run(ctx):
         "this command's id and this target as sender",
         "exhaustive bounds: 1 command x 3 targets x 10 behaviours; 2 commands x 2 targets (one queue as in production, and two queues sharing "
         "the servent = truly concurrent commands) with the cross-command behaviours; Enqueue order fixed at the start in the 2-command configurations",
+        "send duration: a slow SendFunc (behaviour 'slow') returns after 0..TO logical ticks, so the response windows of the targets of one "
+        "command are staggered; the driver holds its SendFunc for that target and places replies by its clock half a tick (%d ms) away from "
+        "every deadline - only the imposed schedule depends on that placement, verdicts come from recorded clock readings" % (TICK_MS // 2),
         "scheduled runs impose only orders a driver can impose without hooks (reply while inside SendFunc / right after it returned / when the call "
         "cannot be pending any more); the reply-vs-timer race itself is exercised by the free runs and judged by the monitor only",
     ]
@@ -238,14 +263,18 @@ def run(ctx):
     ORD = '{<<"c1", "c2">>}'
     preds = []
     runs = []
-    Q_BEHS = ["ok", "sendfail", "silent", "dup", "foreign", "wrongsender", "crossid", "failreply"]
+    Q_BEHS = ["ok", "sendfail", "silent", "dup", "wrongsender", "crossid"] if quick else []
     X_BEHS = ["ok", "silent", "dup", "crossid"]
     if quick:
-        runs = [("1 cmd x 3 targets, 8 behaviours", ["c1"], ["t1", "t2", "t3"], ["q1"], Q_BEHS, T3, Q1, "{}"),
-                ("1 cmd x 2 targets, all behaviours", ["c1"], ["t1", "t2"], ["q1"], MODEL_BEHS, T2, Q1, "{}"),
-                ("2 cmds x 2 targets, one queue, cross-command behaviours", ["c1", "c2"], ["t1", "t2"], ["q1"], X_BEHS, T2, Q1, ORD)]
+        runs = [("1 cmd x 3 targets, 6 behaviours", ["c1"], ["t1", "t2", "t3"], ["q1"], Q_BEHS, T3, Q1, "{}"),
+                ("1 cmd x 2 targets, all behaviours incl. slow send", ["c1"], ["t1", "t2"], ["q1"], MODEL_BEHS + [SLOW], T2, Q1, "{}"),
+                ("1 cmd x 3 targets, staggered deadlines (slow send)", ["c1"], ["t1", "t2", "t3"], ["q1"],
+                 ["ok", "silent", SLOW, "sendfail"], T3, Q1, "{}"),
+                ("2 cmds x 2 targets, one queue, cross-command behaviours", ["c1", "c2"], ["t1", "t2"], ["q1"], ["ok", "silent", "crossid"],
+                 T2, Q1, ORD)]
     else:
-        runs = [("1 cmd x 3 targets, all behaviours", ["c1"], ["t1", "t2", "t3"], ["q1"], MODEL_BEHS, T3, Q1, "{}"),
+        runs = [("1 cmd x 3 targets, all behaviours incl. slow send (staggered deadlines)", ["c1"], ["t1", "t2", "t3"], ["q1"],
+                 MODEL_BEHS + [SLOW], T3, Q1, "{}"),
                 ("2 cmds x 2 targets, one queue, all behaviours", ["c1", "c2"], ["t1", "t2"], ["q1"], MODEL_BEHS, T2, Q1, ORD),
                 ("2 cmds x 2 targets, two queues (concurrent commands), cross-command behaviours", ["c1", "c2"], ["t1", "t2"],
                  ["q1", "q2"], X_BEHS, T2, Q2, ORD),
@@ -257,15 +286,15 @@ def run(ctx):
         if r.violated or r.deadlock:
             preds.append((label, r))
     # liveness half of "exactly once" (fair implementation + time): small configuration
-    r = model(ctx, "liveness: 1 cmd x 2 targets", ["c1"], ["t1", "t2"], ["q1"], MODEL_BEHS if not quick else X_BEHS + ["sendfail"],
+    r = model(ctx, "liveness: 1 cmd x 2 targets", ["c1"], ["t1", "t2"], ["q1"], (MODEL_BEHS if not quick else X_BEHS + ["sendfail"]) + [SLOW],
               T2, Q1, "{}", live=True, workers=workers)
     if r.violated:
         preds.append(("liveness", r))
     # the invariants have teeth: broken variants of the code are rejected by the model
-    muts = (("idonly", "NoCrossTalk"), ("tgtonly", "NoCrossTalk"), ("nounreg", "PendingAwaits"))
-    for mut, expect in (muts[:1] if quick else muts):
-        r = model(ctx, "mutant %s (must be rejected)" % mut, ["c1", "c2"], ["t1", "t2"], ["q1"], CROSS_BEHS, T2, Q1, ORD, mutant=mut,
-                  workers=2)
+    muts = (("idonly", "NoCrossTalk"), ("cmdwide", "AwaitingPending"), ("tgtonly", "NoCrossTalk"), ("nounreg", "PendingAwaits"))
+    for mut, expect in (muts[:2] if quick else muts):
+        r = model(ctx, "mutant %s (must be rejected)" % mut, ["c1", "c2"], ["t1", "t2"], ["q1"], CROSS_BEHS + [SLOW], T2, Q1, ORD,
+                  mutant=mut, workers=2)
         if not r.violated:
             raise vlib.Inconclusive("model sanity: mutant %s is not rejected by the invariants" % mut)
         ctx.states -= r.distinct          # (not part of the explored state space of the code as it is)
@@ -283,20 +312,27 @@ def run(ctx):
     scenarios = []
     sid = 0
     seen = set()
+    ONE = "{f \\in [Cmds -> SUBSET Targets] : f[\"c1\"] # {}}"
+    TWO = "{f \\in [Cmds -> SUBSET Targets] : Cardinality(f[\"c1\"]) >= 2}"
     gens = [
-        # (cmds, targets, queues, shapes, queue maps, number of behaviours, depth)
-        (["c1"], ["t1", "t2", "t3"], ["q1"], "{f \\in [Cmds -> SUBSET Targets] : f[\"c1\"] # {}}", "[Cmds -> Queues]", 500 if quick else 5000, 60),
-        (["c1", "c2"], ["t1", "t2"], ["q1", "q2"], "[Cmds -> SUBSET Targets]", "[Cmds -> Queues]", 700 if quick else 7000, 90),
+        # (cmds, targets, queues, shapes, queue maps, behaviours, staggered deadlines, number of behaviours, depth)
+        (["c1"], ["t1", "t2", "t3"], ["q1"], ONE, "[Cmds -> Queues]", ALL_BEHS, "off", 450 if quick else 5000, 60),
+        (["c1", "c2"], ["t1", "t2"], ["q1", "q2"], "[Cmds -> SUBSET Targets]", "[Cmds -> Queues]", ALL_BEHS, "off", 600 if quick else 7000, 90),
+        # staggered deadlines: one command, >= 2 targets, the SendFunc of some target slow (its response window starts and
+        # ends later than its siblings'); replies placed by the clock; "gap": after a sibling's timeout, inside the own window
+        (["c1"], ["t1", "t2", "t3"], ["q1"], TWO, "[Cmds -> Queues]", STAG_BEHS, "gap", 200 if quick else 1500, 70),
     ]
+    if not quick:
+        gens.append((["c1"], ["t1", "t2", "t3"], ["q1"], TWO, "[Cmds -> Queues]", STAG_BEHS, "any", 1500, 70))
     gi = 0
-    for (cmds, tgs, qs, sh, qm, num, depth) in gens:
+    for (cmds, tgs, qs, sh, qm, gbehs, stag, num, depth) in gens:
         gi += 1
         name = "CmdServentMCG"
-        behs = ctx.simulate(name, None, num, depth, cfg_text=cfg_gen(cmds, tgs, qs, ALL_BEHS), seed=ctx.seed * 7919 + gi,
+        behs = ctx.simulate(name, None, num, depth, cfg_text=cfg_gen(cmds, tgs, qs, sorted(set(gbehs)), stag), seed=ctx.seed * 7919 + gi,
                             files={name + ".tla": mc_module(name, "CmdServentGen", sh, qm, "{}")}, timeout=600)
         for b in behs:
             sid += 1
-            s = beh_to_scenario(sid, b)
+            s = beh_to_scenario(sid, b, stag != "off")
             if s is None:
                 continue
             if "c2" not in s["tg"]:
